@@ -26,6 +26,9 @@ from .tlc import MachineryError
 
 VERIF = Path(__file__).resolve().parents[2]
 KNOWN = VERIF / "known_findings.json"
+# VH_OUT: where evidence/ and replays/ are written (default /verif).  Runs against a scratch worktree holding a deliberately broken
+# copy of the repository (tools/mutcheck.sh, tools/mutscore.py) set it so that they never overwrite the committed evidence.
+OUT = Path(os.environ.get("VH_OUT") or VERIF)
 
 
 def stable_hash(obj) -> str:
@@ -254,7 +257,7 @@ class Ctx:
             seen[k] = seen.get(k, 0) + 1
             if seen[k] > 3 or nfiles >= 60:
                 continue
-            rdir = VERIF / "replays" / self.pid
+            rdir = OUT / "replays" / self.pid
             rdir.mkdir(parents=True, exist_ok=True)
             path = rdir / f"{stable_hash(v)}.json"
             with open(path, "w") as f:
@@ -296,8 +299,8 @@ class Ctx:
             "violations": len(self.violations),
         }
         if write_evidence:
-            (VERIF / "evidence").mkdir(exist_ok=True)
-            with open(VERIF / "evidence" / f"{self.pid}.json", "w") as f:
+            (OUT / "evidence").mkdir(parents=True, exist_ok=True)
+            with open(OUT / "evidence" / f"{self.pid}.json", "w") as f:
                 json.dump(ev, f, indent=1, default=str)
         for ln in lines:
             print(ln)
